@@ -132,8 +132,10 @@ func genC17(seed uint64, tier string) *world.Scenario {
 	w.p("tempSensorPollingRate: 250ms\nrpmPollingRate: 500ms\ncontrollerAdjustmentTickRate: 250ms\nrunFanInitializationInParallel: true")
 	missing := ""
 	if r.Bool(0.3) {
-		missing = kernel.Pick(r, "fan-platform", "fan-index", "fan-channel", "sensor-platform", "sensor-index")
+		missing = kernel.Pick(r, "fan-platform", "fan-index", "fan-channel", "sensor-platform", "sensor-index", "fan-platform-malformed", "sensor-platform-malformed")
 	}
+	// a platform that is no regular expression at all (a shell glob, an unbalanced bracket) names no device either
+	malformed := kernel.Pick(kernel.NewRand(seed, "c17.malformed"), "*-isa-0290", "nct67**", "simchip[", "simchip-isa-0290)", "+chip", "chip(?P<n", "[z-a]")
 	sc.Params["missing"] = 0
 	sc.Notes = missing
 	w.p("fans:")
@@ -150,6 +152,9 @@ func genC17(seed uint64, tier string) *world.Scenario {
 			last := i == len(sc.Fans)-1
 			if last && missing == "fan-platform" {
 				pat = "nosuchchip"
+			}
+			if last && missing == "fan-platform-malformed" {
+				pat = malformed
 			}
 			if last && missing == "fan-index" {
 				// an index the named chip does not have - preferably one that another chip does have
@@ -210,6 +215,9 @@ func genC17(seed uint64, tier string) *world.Scenario {
 		last := i == len(sc.Sensors)-1
 		if last && missing == "sensor-platform" {
 			pat = "nosuchchip"
+		}
+		if last && missing == "sensor-platform-malformed" {
+			pat = malformed
 		}
 		if last && missing == "sensor-index" {
 			idx = 23
@@ -338,6 +346,7 @@ func runC17(t *testing.T, sc *world.Scenario) *check.Result {
 		res.Probe("enumeration-orders-run")
 		if missing != "" {
 			res.Probe("missing-device-documents")
+			res.Probe("missing-device:" + missing)
 			judgeMissing(res, sc, co, missing)
 			l2Cleanup(worldDir)
 			if len(res.Violations) > 0 {
